@@ -177,6 +177,18 @@ func (f *Frame) specEval1(e SExpr, env *SpecEnv) Val {
 				return Val{T: smtInt(new(big.Int).Neg(c))}
 			}
 			return Val{T: fmt.Sprintf("(- %s)", v.T)}
+		case "*":
+			if v.Ty == nil {
+				sfail("* applied to a non-pointer %s", x.X)
+			}
+			if _, ok := v.Ty.Underlying().(*types.Pointer); !ok {
+				sfail("* applied to a non-pointer %s", x.X)
+			}
+			st := env.st
+			if st == nil {
+				st = &State{}
+			}
+			return f.deref(st, v, nil)
 		}
 	case *SBinary:
 		return f.specBinary(x, env)
@@ -187,7 +199,13 @@ func (f *Frame) specEval1(e SExpr, env *SpecEnv) Val {
 		return f.specEval(x.Body, ne)
 	case *SSel:
 		if id, ok := x.X.(*SIdent); ok {
-			if _, bound := env.names[id.Name]; !bound && env.macros[id.Name] == nil {
+			isLocal := false
+			if env.localFallback != nil {
+				if _, ok := env.names[id.Name]; !ok {
+					_, isLocal = env.localFallback(id.Name) // a local of the function shadows an imported package name
+				}
+			}
+			if _, bound := env.names[id.Name]; !bound && !isLocal && env.macros[id.Name] == nil {
 				if p := f.findImport(env.pkg, id.Name); p != nil && (env.pkg == nil || env.pkg.Scope().Lookup(id.Name) == nil) {
 					return f.specPkgObj(p, x.Name, env)
 				}
